@@ -236,7 +236,7 @@ func c08Specs(quick bool) []*wSpec {
 var c08All = wSpecMap(c08Specs(true), c08Specs(false))
 
 func init() {
-	register(&Prop{ID: "C08", Level: "model_checking", QuickBudget: 110 * time.Second, ThoroughBudget: 30 * time.Minute,
+	register(&Prop{ID: "C08", Level: "model_checking", QuickBudget: 300 * time.Second, ThoroughBudget: 30 * time.Minute,
 		Run: func(c *rt.Ctx) {
 			c.Cov["rule"] = "E3 on the wallet world (mints A fee 100 and B; W1 with DLEQ-carrying proofs, W2 created by restore (no DLEQ), W3 on mint B): every history up to the depth bound over {mint, send exact / needing a swap / with fees, send to pubkey, HTLC lock, receive (plain, P2PK, HTLC, untrusted mint with and without swap-to-trusted), melt x {Succeeded, Failed, Pending} (NUT-08 blank outputs when the fee reserve > 0), check melt, reclaim, remove spent, add mint, mint-swap A->B, restore}; a monitor in the transport inspects every byte of every request (body, path, query) against the set of all blinding factors known to the harness (DLEQ.r of every proof passing the wallet store proxy or returned to the caller, NUT-13 blinding factors of every wallet seed for counters 0..stored+60 of every keyset; as hex in any case, base64 and raw bytes) and against all NUT-13 output secrets, which may only appear as inputs[].secret of swap / melt"
 			runWSpecs(c, c08Specs(c.Quick()))
